@@ -21,12 +21,14 @@ import (
 	"math/rand"
 	"os"
 	"os/exec"
+	"os/signal"
 	"path/filepath"
 	"regexp"
 	"sort"
 	"strconv"
 	"strings"
 	"sync"
+	"sync/atomic"
 	"syscall"
 	"time"
 
@@ -364,6 +366,11 @@ func c10Child(dir, spec string) error {
 		err := s.Delete(ctx, "x/y/k")
 		fmt.Printf("result %d 0\n", c10cls(err))
 		return nil
+	case "fault": // fault:<limit>:<big>:<small>: Stores under RLIMIT_FSIZE, see c10Fault
+		limit, _ := strconv.Atoi(parts[1])
+		big, _ := strconv.Atoi(parts[2])
+		small, _ := strconv.Atoi(parts[3])
+		return c10FaultChild(s, limit, big, small)
 	case "crashwriter": // crashwriter:<size>: Store ids 1,2,3... for ever, announcing each
 		size, _ := strconv.Atoi(parts[1])
 		for id := 1; ; id++ {
@@ -724,6 +731,158 @@ func c10History(tmproot string, r *rand.Rand, size int, nW, nR, nP, perWriter in
 	return hist, info, sizes, nil
 }
 
+// ---------------------------------------------------------------- kind 4: write faults (RLIMIT_FSIZE)
+
+// c10FaultChild: key d/k gets a 64 KiB value; then the process limits the size of the files it may write
+// (RLIMIT_FSIZE, SIGXFSZ ignored: write(2) beyond the limit fails with EFBIG after a partial write) and
+// Stores alternately values of <big> bytes (beyond the limit: the Store must fail and change nothing) and
+// <small> bytes (must succeed) to d/k while two readers Load it; then a <big> value onto the fresh key
+// d/fresh. The limit is lifted and the final state reported. Lines on stdout:
+//   w <id> <t0> <t1> ok store | f <id> <t0> <t1> failed store | x <id> ... store with an unexpected result
+//   l <t0> <t1> <len> <firstid> <cls> a Load | final ...
+func c10FaultChild(s *certmagic.FileStorage, limit, big, small int) error {
+	ctx := context.Background()
+	now := func() int64 { return time.Now().UnixNano() }
+	var mu sync.Mutex
+	say := func(f string, a ...any) { mu.Lock(); fmt.Printf(f, a...); mu.Unlock() }
+	sizes := map[int]int{1: 65536}
+	t0 := now()
+	err := s.Store(ctx, "d/k", c10Value(1, 65536))
+	say("%s 1 %d %d\n", map[bool]string{true: "w", false: "f"}[err == nil], t0, now())
+	signal.Ignore(syscall.SIGXFSZ)
+	var old syscall.Rlimit
+	syscall.Getrlimit(syscall.RLIMIT_FSIZE, &old)
+	if err := syscall.Setrlimit(syscall.RLIMIT_FSIZE, &syscall.Rlimit{Cur: uint64(limit), Max: old.Max}); err != nil {
+		return err
+	}
+	var stop int32
+	var rg sync.WaitGroup
+	for q := 0; q < 2; q++ {
+		rg.Add(1)
+		go func() {
+			defer rg.Done()
+			for atomic.LoadInt32(&stop) == 0 {
+				a := now()
+				b, err := s.Load(ctx, "d/k")
+				c := now()
+				id := 0
+				if len(b) >= 8 {
+					id = int(binary.BigEndian.Uint64(b[:8]))
+				}
+				whole := 0
+				if err == nil && (len(b) == 65536 || len(b) == small+id%5) && bytes.Equal(b, c10Value(id, len(b))) {
+					whole = 1
+				}
+				say("l %d %d %d %d %d %d\n", a, c, len(b), id, c10cls(err), whole)
+				time.Sleep(time.Duration(300+rand.Intn(1500)) * time.Microsecond)
+			}
+		}()
+	}
+	for j := 0; j < 8; j++ {
+		id := 10 + j
+		size := small + id%5
+		if j%2 == 0 {
+			size = big + id%5
+		}
+		sizes[id] = size
+		a := now()
+		err := s.Store(ctx, "d/k", c10Value(id, size))
+		b := now()
+		switch {
+		case j%2 == 0 && err != nil:
+			say("f %d %d %d\n", id, a, b)
+		case j%2 == 1 && err == nil:
+			say("w %d %d %d\n", id, a, b)
+		default:
+			say("x %d %d %d %d\n", id, a, b, c10cls(err))
+		}
+	}
+	errFresh := s.Store(ctx, "d/fresh", c10Value(99, big))
+	atomic.StoreInt32(&stop, 1)
+	rg.Wait()
+	syscall.Setrlimit(syscall.RLIMIT_FSIZE, &old)
+	// one more faulted Store over the final value, then the final state
+	syscall.Setrlimit(syscall.RLIMIT_FSIZE, &syscall.Rlimit{Cur: uint64(limit), Max: old.Max})
+	errOld := s.Store(ctx, "d/k", c10Value(98, big))
+	syscall.Setrlimit(syscall.RLIMIT_FSIZE, &old)
+	b, lerr := s.Load(ctx, "d/k")
+	id := 0
+	if len(b) >= 8 {
+		id = int(binary.BigEndian.Uint64(b[:8]))
+	}
+	if lerr != nil || !bytes.Equal(b, c10Value(id, len(b))) || len(b) == 0 {
+		id = -1
+	}
+	_, serr := s.Stat(ctx, "d/fresh")
+	ents, _ := os.ReadDir(filepath.Join(s.Path, "d"))
+	ex := 0
+	if s.Exists(ctx, "d/fresh") {
+		ex = 1
+	}
+	say("final %d %d %d %d %d %d %d\n", c10cls(errOld), c10cls(errFresh), id, len(b), ex, c10cls(serr), len(ents))
+	return nil
+}
+
+// c10Fault runs the fault child and returns the history (kind 2 wire events) and the final-state tuple.
+func c10Fault(tmproot string, limit, big, small int) (hist []c10hev, final []int, raw string, err error) {
+	dir, e := os.MkdirTemp(tmproot, "fault")
+	if e != nil {
+		return nil, nil, "", e
+	}
+	defer os.RemoveAll(dir)
+	cmd := exec.Command(os.Args[0], "C10", "child", "0", dir, fmt.Sprintf("fault:%d:%d:%d", limit, big, small))
+	out, e := cmd.CombinedOutput()
+	raw = string(out)
+	expected := 0
+	for _, ln := range strings.Split(raw, "\n") {
+		var id, ln2, cls, whole int
+		var a, b int64
+		switch {
+		case strings.HasPrefix(ln, "w "):
+			fmt.Sscanf(ln, "w %d %d %d", &id, &a, &b)
+			hist = append(hist, c10hev{false, a, b, id})
+			expected = id
+		case strings.HasPrefix(ln, "f "):
+			fmt.Sscanf(ln, "f %d %d %d", &id, &a, &b)
+			hist = append(hist, c10hev{false, a, b, -4})
+		case strings.HasPrefix(ln, "x "):
+			fmt.Sscanf(ln, "x %d %d %d %d", &id, &a, &b, &cls)
+			if cls == 0 { // a Store beyond the limit that reports success: an ordinary Store of that value
+				hist = append(hist, c10hev{false, a, b, id})
+				expected = id
+			} else { // a Store within the limit that failed
+				hist = append(hist, c10hev{false, a, b, -2})
+			}
+		case strings.HasPrefix(ln, "l "):
+			fmt.Sscanf(ln, "l %d %d %d %d %d %d", &a, &b, &ln2, &id, &cls, &whole)
+			switch {
+			case cls == 1:
+				id = 0
+			case whole != 1:
+				id = -1
+			}
+			hist = append(hist, c10hev{true, a, b, id})
+		case strings.HasPrefix(ln, "final "):
+			final = make([]int, 7)
+			var blen int
+			fmt.Sscanf(ln, "final %d %d %d %d %d %d %d", &final[0], &final[1], &final[2], &blen, &final[4], &final[5], &final[6])
+			final[3] = expected
+		}
+	}
+	if final == nil {
+		return nil, nil, raw, fmt.Errorf("fault child reported no final state: %v: %s", e, raw)
+	}
+	sort.Slice(hist, func(i, j int) bool { return hist[i].T0 < hist[j].T0 })
+	if len(hist) > 0 {
+		base := hist[0].T0
+		for i := range hist {
+			hist[i].T0 -= base
+			hist[i].T1 -= base
+		}
+	}
+	return hist, final, raw, nil
+}
+
 // ---------------------------------------------------------------- kind 3: SIGKILL
 
 func c10Crash(tmproot string, r *rand.Rand, size int, delay time.Duration) (acked, started, loaded, temps int, err error) {
@@ -961,6 +1120,49 @@ func runC10(tier string, seed int64, outdir string, replay string) error {
 		}
 		w.Add(emit.Case{Desc: map[string]any{"kind": "history", "class": "concurrent-history", "size": c.size}, In: c, Obs: map[string]any{"info": info, "first_events": show},
 			Wire: e.String(), Nontrivial: len(distinct) >= 3, Key: fmt.Sprint("hist", c)})
+	}
+
+	// ---- kind 4 (+ a kind 2 history): write faults in the middle of Store
+	nFault := 2
+	if tier == "thorough" {
+		nFault = 8
+	}
+	for i := 0; i < nFault; i++ {
+		limit := []int{1 << 20, 300000, 4096, 1 << 16}[i%4]
+		hist, final, raw, err := c10Fault(tmproot, limit, 4<<20, 100000)
+		if err != nil {
+			return err
+		}
+		e := &emit.Enc{}
+		e.Int(2).Len(len(hist))
+		failed, loads := 0, 0
+		for _, h := range hist {
+			e.Bool(h.Load).Z(h.T0).Z(h.T1).Int(h.ID).Bool(false)
+			if h.ID == -4 {
+				failed++
+			}
+			if h.Load {
+				loads++
+			}
+		}
+		w.Hist("history_with_write_faults")
+		show := hist
+		if len(show) > 40 {
+			show = show[:40]
+		}
+		w.Add(emit.Case{Desc: map[string]any{"kind": "history", "class": "write-fault-history", "limit": limit}, In: map[string]any{"rlimit_fsize": limit, "big": 4 << 20, "small": 100000},
+			Obs: map[string]any{"failed_stores": failed, "loads": loads, "first_events": show}, Wire: e.String(), Nontrivial: failed >= 2 && loads >= 3, Key: fmt.Sprint("faulthist", i)})
+		f := &emit.Enc{}
+		f.Int(4).Len(7)
+		for _, x := range final {
+			f.Int(x)
+		}
+		w.Hist(fmt.Sprintf("fault_store_results=%d/%d", final[0], final[1]))
+		lines := strings.Split(raw, "\n")
+		w.Add(emit.Case{Desc: map[string]any{"kind": "fault", "class": "write-fault", "limit": limit}, In: map[string]any{"rlimit_fsize": limit, "big": 4 << 20},
+			Obs: map[string]any{"store_over_existing_cls": final[0], "store_fresh_cls": final[1], "loaded_id": final[2], "expected_id": final[3],
+				"fresh_exists": final[4], "stat_fresh_cls": final[5], "dir_entries": final[6], "last_line": lines[len(lines)-2:]},
+			Wire: f.String(), Nontrivial: true, Key: fmt.Sprint("fault", i)})
 	}
 
 	// ---- kind 3: SIGKILL of a writer process
